@@ -14,13 +14,14 @@ def run_fnexit(ctx):
     b = lib.body("function::Function::exec")
     if res.anchor(b is not None, "Function::exec"):
         # the Ok arm of the match on interpreter.exec(..) builds Ok(Variable::Void)
-        sws = [s for s in enum_switches(b, "std::result::Result") if "Ok" in s["arms"]]
+        from ..owners import for_crate
         good = False
-        for sw in sws:
-            reg = set(arm_region(b, sw["arms"]["Ok"]))
-            vs = [s["rv"]["variant"] for i, s in b.assigns() if i in reg and s["rv"]["k"] == "agg" and s["rv"].get("adt") == VAR]
-            if vs == ["Void"]:
-                good = True
+        for hb in for_crate(lib).members("function::Function::exec"):
+            for sw in [s for s in enum_switches(hb, "std::result::Result") if "Ok" in s["arms"]]:
+                reg = set(arm_region(hb, sw["arms"]["Ok"]))
+                vs = [s["rv"]["variant"] for i, s in hb.assigns() if i in reg and s["rv"]["k"] == "agg" and s["rv"].get("adt") == VAR]
+                if vs == ["Void"]:
+                    good = True
         if good:
             res.ok("fnexit:void", b.where(), "falling off the end yields ()")
         else:
@@ -85,7 +86,8 @@ def run_units(ctx):
         b = lib.body(f)
         if not res.anchor(b is not None, f):
             continue
-        callees = {c.callee for bb in lib.with_closures(f) for c in bb.calls}
+        from ..owners import for_crate
+        callees = {c.callee for bb in for_crate(lib).members(f) for c in bb.calls}
         key = "units:" + f
         if any(x in callees for x in BYTEY):
             res.bad(key, "%s measures a string in bytes (%s): multi-byte characters break s[i] / slices / len agreement"
@@ -97,13 +99,15 @@ def run_units(ctx):
     # at::exec normalises a negative index with the same len()
     b = lib.body("instruction::at::exec")
     if b is not None:
-        if any(c.callee == "stdlib::len" for c in b.calls):
+        from ..owners import for_crate
+        cl = for_crate(lib).members("instruction::at::exec")
+        if any(c.callee == "stdlib::len" for hb in cl for c in hb.calls):
             res.ok("units:at-uses-len", b.where(), "negative indices are normalised with stdlib::len (same unit)")
         else:
             res.bad("units:at-uses-len", "at::exec no longer normalises negative indices with stdlib::len", b.where())
     # every IndexOutOfBounds path: both the underflow and the overflow side construct the error (3 sites reviewed)
     if b is not None:
-        n = len(aggregates(b, "errors::exec_error::ExecError", "IndexOutOfBounds"))
+        n = sum(len(aggregates(hb, "errors::exec_error::ExecError", "IndexOutOfBounds")) for hb in for_crate(lib).members("instruction::at::exec"))
         if n >= 3:
             res.ok("units:at-oob-sites", b.where(), "%d IndexOutOfBounds sites (underflow, string, array)" % n)
         else:
